@@ -59,7 +59,7 @@ class StoreJudge:
             self.prio = False; self.filter = False; self.td = 0
             self.mode = w[3]; self.timed = True
         elif self.family == "slot":
-            self.cap = int(w[2]); self.prio = False; self.filter = False; self.td = 0
+            self.cap = int(w[2]); self.prio = True; self.filter = False; self.td = 0       # the slotted BeltStore's priority argument is driven directly
             self.mode = "FIFO"; self.timed = True
             self.sdelay = int(w[3]); self.acc = (len(w) < 5 or w[4] != "0")
             self.last_entry = None
@@ -69,7 +69,7 @@ class StoreJudge:
             self.sdelay = int(w[3]); self.acc = (w[4] != "0")
             self.last_entry = None
         elif self.family == "fleet":
-            self.cap = int(w[2]); self.prio = False; self.filter = False; self.td = 0
+            self.cap = int(w[2]); self.prio = True; self.filter = False; self.td = 0      # FleetStore.reserve_*(priority) is driven directly
             self.mode = "FIFO"; self.timed = True
             self.fdelay, self.ftransit = int(w[3]), int(w[4])
         else:
